@@ -369,7 +369,14 @@ def loop_oracle(case, sr, sink, ended):
                                       f'{r["before"]["lack"]} (event `{r["line"]}`)',
                               'signature': 'loop-retransmit-acknowledged'})
                 break
-    if sr.sender.last_ack != size:
+    # ACKs are cumulative: the acknowledged mark never moves back (an ACK overtaken on the return path by a later one carries nothing new)
+    back = next((r for r in sr.records if r['tag'] == 'A' and r['after']['lack'] < r['before']['lack']), None)
+    if back:
+        fails.append({'what': f'at t={back["now"]} an acknowledgement overtaken by a later one (event `{back["line"]}`) moved sender.last_ack back '
+                              f'from {back["before"]["lack"]} to {back["after"]["lack"]}; at the end last_ack = {sr.sender.last_ack}, flow size {size}, '
+                              f'sink holds {sink.recv_buffer[:4]}',
+                      'signature': 'loop-lastack-decreased'})
+    if sr.sender.last_ack != size and not back:          # (with a mark that moved back, a short final mark is that defect again)
         fails.append({'what': f'the event queue ran empty with sender.last_ack = {sr.sender.last_ack}, flow size {size}',
                       'signature': 'loop-lastack-short'})
     if sink.recv_buffer != [[0, size]]:
